@@ -349,6 +349,29 @@ Section GridIntrinsic.
     | KMinimum => match spanned_fixed_track_limit inner it tracks with Some l => fmin size l | None => size end
     end.
 
+  (* ---- items whose min-content and max-content sizes differ (measured leaves without a `size` style: "text").
+     GridItem::minimum_contribution for an item without size / min_size style: overflow visible => the automatic minimum
+     size, i.e. the min-content contribution when `use_content_based_minimum` (sic: `spans_auto_min_track` and
+     `spans_a_flexible_track` look at ALL tracks of the axis) else 0; a scroll container => 0; then capped by
+     spanned_fixed_track_limit.  content = (min-content size, max-content size, has a definite `size` style) per item id *)
+  Definition automatic_minimum (it : item) (tracks : list track) (min_content : T) : T :=
+    let spans_auto_min_track := existsb (fun t => is_auto (minf t)) tracks in
+    let only_span_one_track := Nat.eqb (range_len it) 1 in
+    let spans_a_flexible_track := existsb (fun t => is_fr (maxf t)) tracks in
+    if spans_auto_min_track && (only_span_one_track || negb spans_a_flexible_track) then min_content else zero.
+
+  Definition content_contrib (inner : option T) (tracks : list track) (content : list (T * T * bool)) (it : item) (k : ckind) : T :=
+    let '(cmin, cmax, has_size) := nth (it_id it) content (zero, zero, true) in
+    match k with
+    | KMinContent => cmin
+    | KMaxContent => cmax
+    | KMinimum =>
+        let size := if has_size then cmin
+                    else if it_scroll it then zero
+                    else automatic_minimum it tracks cmin in
+        match spanned_fixed_track_limit inner it tracks with Some l => fmin size l | None => size end
+    end.
+
   (* track_sizing_algorithm with the whole of 11.5 *)
   Definition track_sizing_algorithm_full (contrib : item -> ckind -> T) (axis_min axis_max : option T) (stretch : bool)
              (avail : avail_space T) (inner : option T) (items : list item) (tracks : list track) : list track :=
